@@ -90,7 +90,30 @@ pub fn check_tx(world: &World, sc: &Scenario, i: usize, spec: &ScriptSpec, stora
         opcodes_seen: Default::default(),
         executed: 0,
     };
-    let plain = sc.plan.plain.contains(&(i as u8));
+    let mut plain = sc.plan.plain.contains(&(i as u8));
+    if plain {
+        // An uninterrupted transact cannot be stopped from inside the process. A single-stepped
+        // dry run on a scratch interpreter over a copy of the storage goes first: if it shows a
+        // violation (an instruction that makes no progress or consumes no gas would spin
+        // forever) that is the verdict; if it hits the step cap the transaction is executed
+        // single-stepped like the others.
+        let mut dry_vm = new_vm(world, sc.gas_price, snapshot.clone(), Default::default());
+        dry_vm.as_ref().clear_faults();
+        let dry_ready = prepare(world, sc.height, sc.gas_price, i, spec);
+        let mut dry_hook = Robust { default_schedule: hook.default_schedule, pokes: &[], violation: None, opcodes_seen: Default::default(), executed: 0 };
+        if let Ok(r) = dry_ready {
+            let dry = run_stepped(&mut dry_vm, r, &mut dry_hook, sc.plan.step_cap as u64);
+            if let Some((inv, sig, detail)) = dry_hook.violation.take() {
+                ctx.violate(&inv, &sig, format!("tx {i}: {detail}"));
+                return (true, snapshot);
+            }
+            if dry.truncated {
+                plain = false;
+            }
+        } else {
+            plain = false;
+        }
+    }
     let o = if plain {
         ctx.stats.inc("probe.tx_uninterrupted");
         run_plain(&mut vm, ready)
